@@ -381,6 +381,7 @@ def check(run: Run, prog: Program, model: Model, tier: str) -> None:
         "this decides the property for all seeds, schema sequences and hash seeds, except inside the "
         "property's own uuid4/datetime/date exemption.")
     run.explanation += " A subscript store inside a loop over a set is an order-sensitive consumer. ORDER-TAINT findings are keyed by owner class, normalised set expression and consumer, so that moving the expression does not change the finding's identity."
+    run.explanation += " SET-SEED is decided per returning path of Random.set_seed: random.seed is called with the caller's seed unless a fact on the path says the seed is the no-seed sentinel (a truthiness test sends 0, '', False to OS entropy)."
     run.rule_text = ("one obligation per external reference in scope (classified by the entropy table), per "
                      "set-valued expression reaching a consumer, per attribute write in a generation class; "
                      "non-trivial = needed callee resolution through self attributes or element-kind inference")
@@ -411,8 +412,10 @@ def check(run: Run, prog: Program, model: Model, tier: str) -> None:
                 name = base.id if isinstance(base, ast.Name) else (f"self.{base.attr}" if isinstance(base, ast.Attribute) else None)
                 if name is not None and _is_private_rng(prog, ss, base):
                     seeded = name
-    if seeded is None:
-        # not visible as a direct call: evaluate set_seed and look for the call it makes (through a helper, getattr, ...)
+    semantic_bad: List[str] = []
+    if True:
+        # evaluate set_seed: on EVERY returning path the generator is seeded with the argument itself (a path that
+        # re-seeds from the OS - random.seed() without the argument, say for a falsy seed - is not reproducible)
         from ..engine import Interp
         from ..values import Sym as _Sym
         it_ = Interp(prog, model, unroll=1)
@@ -435,8 +438,23 @@ def check(run: Run, prog: Program, model: Model, tier: str) -> None:
                 # `<x>.seed(arg)`: only the module itself counts (a generator OBJECT has a seed method of the same name)
                 return dotted(prog, ss.module, fn_, function_local_imports(ss.node)) == "random.seed"
             return True
-        if rets_ and all(any(_module_seed(e_) for e_ in p_.events) for p_ in rets_):
+        if seeded is None and rets_ and all(any(_module_seed(e_) for e_ in p_.events) for p_ in rets_):
             seeded = "module"
+        for p_ in rets_:
+            seeds_ = [e_ for e_ in p_.events if e_.kind == "call" and isinstance(e_.data.get("callee"), str)
+                      and e_.data["callee"].endswith(".seed")]
+            for e_ in seeds_:
+                a_ = e_.data.get("args") or []
+                if not a_ or a_[0].key() != "seed":
+                    cond_ = [("" if b else "not ") + k for k, _, b in p_.facts][-1:]
+                    semantic_bad.append(f"a path calls {e_.data['callee']}({', '.join(x.key()[:20] for x in a_)}) instead of seeding with the argument"
+                                        + (f" (when {cond_[0][:60]})" if cond_ else ""))
+            if seeded == "module" and not any(_module_seed(e_) for e_ in p_.events):
+                cond_ = [("" if b else "not ") + k for k, _, b in p_.facts][-1:]
+                semantic_bad.append("a path returns without seeding the generator with the argument" + (f" (when {cond_[0][:60]})" if cond_ else ""))
+    if semantic_bad:
+        run.violated("SET-SEED", "Random.set_seed: every path", ss.loc, "; ".join(sorted(set(semantic_bad)))[:300],
+                     witness="Random().set_seed(0) twice gives two different sequences")
     if seeded is None:
         run.violated("SET-SEED", "Random.set_seed", ss.loc,
                      "set_seed does not seed a generator with its argument (neither random.seed(arg) nor <private Random>.seed(arg))",
@@ -717,4 +735,10 @@ MUTANTS = [
 MUTANTS += [
     {"name": "merged key table ordered through a set of keys", "rule": "ORDER-TAINT",
      "edits": [("d42/declaration/types/_dict_schema.py", "        merged_keys = {**self_keys, **other_keys}", "        merged_keys = {key: self_keys[key] for key in self_keys.keys() - other_keys.keys()}\n        merged_keys.update(other_keys)")]},
+]
+
+# round 7: the seeded changes that were missed on first contact, replayed against the current tree
+MUTANTS += [
+    {"name": 'seeded C17-N', "rule": 'SET-SEED',
+     "edits": [('d42/generation/_random.py', '\n\nclass Random:\n    def set_seed(self, seed: SeedType) -> None:\n        random.seed(seed)\n\n    def random_int(self, start: int, end: int) -> int:\n', '\n\nclass Random:\n    def set_seed(self, seed: Nilable[SeedType] = Nil) -> None:\n        """\n        Seed the generator: the values generated afterwards are a function of the seed.\n\n        Called without a seed, the generator is re-initialised from the OS entropy source\n        (e.g. to leave the reproducible mode at the end of a test).\n        """\n        if not seed:\n            # Nil must not reach random.seed(): it is not one of the supported seed types\n            random.seed()\n            return\n        random.seed(seed)\n\n    def random_int(self, start: int, end: int) -> int:\n')]},
 ]
